@@ -587,6 +587,49 @@ def w2_scan(F, R, tadt):
                         if y[0] == 'call' and y[2].endswith('read_word') and len(y[3]) > 2:
                             mult_offs.add(cap_rel_offset(y[3][2]))
     R.check(mult_guard, 'W2', '%s:odd-multiplier' % ctor['id'], where, 'multiplier parity is tested', 'no test of notify_off_multiplier % 2')
+    # polarity: an odd multiplier takes the edge that constructs the error, an even one does not
+    pol = None
+    for n in sg.nodes:
+        if n.ctx == 0 and n.kind == 'switch':
+            d = S.operand(n.id, n.d['discr'])
+            rems = [x for x in subterms(d) if x[0] == 'bin' and x[1] == 'Rem' and fold_const(x[3]) == 2]
+            if not rems:
+                continue
+            m_term = rems[0][2]
+
+            def take(mv):
+                def leaf(t):
+                    if t == m_term:
+                        return mv
+                    raise Unfoldable(fmt(t)[:40])
+                v = Folder(leaf).ev(d)
+                explicit = [x for x, _ in n.switch_edges if x is not None]
+                for val, succ in n.switch_edges:
+                    if (val is not None and val == v) or (val is None and v not in explicit):
+                        return succ
+                return None
+            try:
+                s_odd, s_even = take(3), take(4)
+            except Unfoldable:
+                continue
+            def straight_err(start):
+                # does the straight-line code from this edge (up to the next call / branch) build an Err value?
+                x, seen_ = start, set()
+                while x is not None and x not in seen_:
+                    seen_.add(x)
+                    nx = sg.nodes[x]
+                    if nx.kind == 'assign' and nx.d['rv']['rv'] == 'agg' and nx.d['rv'].get('adt') == 'core::result::Result' and nx.d['rv'].get('variant') == 'Err':
+                        return True
+                    if nx.kind in ('call', 'switch', 'return') or len(nx.succ) != 1:
+                        return False
+                    x = nx.succ[0]
+                return False
+            if s_odd is None or s_even is None:
+                continue
+            odd_err, even_err = straight_err(s_odd), straight_err(s_even)
+            pol = (odd_err, even_err)
+    R.check(pol == (True, False), 'W2', '%s:odd-multiplier-refused' % ctor['id'], where, 'an odd notify_off_multiplier is refused, an even one accepted',
+            'multiplier parity test has the wrong polarity (odd refused=%s, even refused=%s): notifications would be written at odd byte offsets / valid devices refused' % (pol if pol else ('?', '?')))
     R.check(mult_offs == {16}, 'W2', '%s:field:notify_off_multiplier' % ctor['id'], where, 'notify_off_multiplier read at capability offset +16',
             'notify_off_multiplier is read at relative offsets %s, expected +16 (VirtIO 1.2 4.1.4.4)' % sorted(mult_offs, key=str))
 
